@@ -236,6 +236,13 @@ def extra_cases(tier, seed):
     out = []
     for fam, masks in (("slc", [["slice", [-300001, None, None]], ["bool", "i%3!=1"], ["pos", "range(5, n, 7)"]]),):
         for m in masks: out.append({"big": 1_000_000, "keyform": "(i*7919 % 1000) % 13", "kkind": "int", "keyrep": "np", "vkind": "float", "fam": fam, "masks": [m], "sort": True, "g": 0, "only": ["size", "sum", "sum(transform)"]})
+    # positions in the CALLER's order on contiguous keys (array-indexing semantics: the selected rows are visited in the order given, repeats count): designed
+    # sequences that the exhaustive open stream (n <= 3) only reaches late; order-sensitive reducers (first / last) tell the visiting order apart
+    for j, (keys, pos) in enumerate((([0, 0, 1, 1, 0], [4, 0, 3]), ([0, 0, 1, 1, 0], [3, 1, 2, 0]), ([1, 0, 1, 0, 1, 0], [5, 4, 3, 2, 1, 0]), ([0, 1, 0, 1], [-1, -4, 2]), ([0, 0, 0, 1], [2, 2, 0, 3, 3]),
+                                     ([None, 0, 1, 0, 1], [4, 3, 0, 2, 1]), ([2, 1, 0, 2, 1, 0], [5, 0, 4, 1]))):
+        for kkind in ("float", "str"):
+            for vkind in ("float", "int"):
+                out.append(_case(keys, kkind, "np", vkind, _nullpat(vkind, len(keys), j), "pos", [["pos", pos]], sort=(j % 2 == 0)))
     return out
 
 
@@ -252,6 +259,12 @@ def random_case(rnd, tier):
         a = rnd.randrange(0, n + 1); b = rnd.randrange(a, n + 1); sel = list(range(a, b))
     else: sel = [i for i in range(n) if rnd.random() < 0.6]
     masks = mask_spellings(n, sel)
+    if not chunked and keyrep == "np" and fam in ("red", "pos") and sel and rnd.random() < 0.5:
+        # positions in the caller's order (shuffled, sometimes with a repeat or a negative spelling) on contiguous keys
+        pos = list(sel); rnd.shuffle(pos)
+        if rnd.random() < 0.3: pos.append(rnd.choice(pos))
+        if rnd.random() < 0.3: pos[0] -= n
+        return _case(keys, kkind, keyrep, vkind, pat, "pos", [["pos", pos]], sort=rnd.random() < 0.7)
     if _is_range(sel): masks = masks[:3] + rnd.sample(slice_spellings(n, sel), min(3, len(slice_spellings(n, sel))))
     g = None
     if chunked and fam in ("red", "tr"): fam = "c" + fam; g = rnd.randrange(3)
